@@ -209,7 +209,7 @@ def render_len_children(E, ln, opts):
         dv = E("DynamicValue")
         attrib = {"parameterRef": ln["ref"]}
         if not (opts.get("omit_defaults") and ln["cal"]):
-            attrib["useCalibratedValue"] = "true" if ln["cal"] else "false"
+            attrib["useCalibratedValue"] = crit._b(ln["cal"], opts)
         dv.append(E("ParameterInstanceRef", attrib))
         if ln["adj"]:
             a = {}
@@ -277,6 +277,12 @@ def enum_value_text(pt, key):
 
 def render_type(E, pt, opts):
     el = E(TYPE_CLASS[pt["kind"]], {"name": pt["name"]})
+    if pt["kind"] == "int" and opts.get("type_signed"):
+        # the optional `signed` attribute of the parameter TYPE (the data ENCODING decides how the bits are read)
+        how = opts["type_signed"]
+        el.set("signed", {"true": "true", "false": "false",
+                          "match": "false" if pt["enc"]["sign"] == "unsigned" else "true",
+                          "opposite": "true" if pt["enc"]["sign"] == "unsigned" else "false"}[how])
     if pt["kind"] in ("abstime", "reltime"):
         attrib = {}
         if pt.get("unit") is not None:
@@ -315,7 +321,7 @@ def render_type(E, pt, opts):
 def render_container(E, c, opts):
     attrib = {"name": c["name"]}
     if not (opts.get("omit_defaults") and not c.get("abstract")):
-        attrib["abstract"] = "true" if c.get("abstract") else "false"
+        attrib["abstract"] = crit._b(c.get("abstract"), opts)
     if c.get("short"):
         attrib["shortDescription"] = c["short"]
     el = E("SequenceContainer", attrib)
